@@ -145,6 +145,19 @@ def routing_checks(seed):
                 or abs(_losses['infinity'](r, None, None).item() - 3.0) > 1e-12:
             bad.append(dict(case='named loss value'))
 
+        # h1 norms: mean square of the residual together with / of its gradient w.r.t. the coordinates
+        xs_ = torch.tensor([[0.5], [1.5]], requires_grad=True)
+        ys_ = torch.tensor([[2.0], [-1.0]], requires_grad=True)
+        res_ = xs_ ** 2 * ys_
+        rv = [0.5 ** 2 * 2.0, 1.5 ** 2 * -1.0]
+        gx = [2 * 0.5 * 2.0, 2 * 1.5 * -1.0]
+        gy = [0.5 ** 2, 1.5 ** 2]
+        want_h1 = sum(v * v for v in rv + gx + gy) / 6
+        want_semi = sum(v * v for v in gx + gy) / 4
+        got_h1 = _losses['h1'](res_, None, (xs_, ys_)).item()
+        got_semi = _losses['h1 semi'](xs_ ** 2 * ys_, None, (xs_, ys_)).item()
+        if abs(got_h1 - want_h1) > 1e-12 or abs(got_semi - want_semi) > 1e-12:
+            bad.append(dict(case='named loss value (h1 / h1 semi)', got=[got_h1, got_semi], want=[want_h1, want_semi]))
         # spherical solver: fixed-arity condition gets the leading coordinates only
         seen = []
 
